@@ -35,6 +35,12 @@ SHAPES = {
     "switch": (["graph g0 nin=1", "n 4 lpass in=a0{f4}", "out 4", "endgraph", "graph g1 nin=1", "n 5 lpass in=a0{f5}", "n 7 lsink in=5{f7}", "out 5", "endgraph",
                 "graph root", "n 1 src script=1:1;3:2;4:1", "n 2 lsrc cnt=5{f2}", "n 3 switch in=1,2 cases=1:0,2:1", "n 6 lsink in=3{f6}", "endgraph"],
                [2, 4, 5, 6, 7]),
+    # reductions: one combiner child graph per element pair (tree) / per element (ordered chain); the collection grows, then
+    # SHRINKS in the last cycle of the run, so retired children have no later evaluation to be swept by
+    "reduce": (["graph root", "n 1 dsrc script=1:1=1;2:2=2,3=3;3:4=4;5:-2,-4", "n 2 reduce in=1 comb=gadd zero=0", "n 3 rrec in=2,1",
+                "n 6 lsrc cnt=2{f6}", "endgraph"], [6]),
+    "oreduce": (["graph root", "n 1 dsrc script=1:0=1;2:1=2;3:2=3;5:-2", "n 2 reduce in=1 comb=gadd zero=0 ordered=1", "n 3 rrec in=2,1",
+                 "n 6 lsrc cnt=2{f6}", "endgraph"], [6]),
 }
 PHASES = ("start", "eval", "stop")
 
@@ -81,7 +87,7 @@ def main():
     # the same lifecycle in REAL-TIME mode: the run idles until the wall clock reaches its end time (or a fault ends it);
     # whatever ends it, nothing may be left started when run() returns
     for shape, (_, ids) in SHAPES.items():
-        if shape in ("map", "switch"):
+        if shape in ("map", "switch", "reduce", "oreduce"):
             continue
         fsets = [()] + [((i, ph, 1),) for i in ids for ph in ("eval", "stop")]
         rng.shuffle(fsets)
